@@ -54,6 +54,9 @@ CHECKS = {
  "C05": ("exploration", "runtime monitor of the real IP and SCION clients against a scripted loopback peer that answers each request with a script of crafted datagrams, each tagged by a distinct huge clock offset so that the returned offset identifies the datagram it was computed from",
          "Every single-field mutation of a genuine reply (and NTS / SCION addressing defects) alone and in random scripts before a genuine terminator; acceptance judged by a predicate taken from the statement; a floor on genuine-only successes guards against 'rejects everything'.",
          "loopback; datagrams from the queried address but another port and sub-nanosecond transmit/receive inversions are not judged; SPAO is C13's subject", "3/C05"),
+ "C11": ("fault_enumeration", "runtime monitor on the wire: the real NTS client under exhaustively enumerated loss patterns against a scripted NTS-KE + NTS peer that parses every request and tracks the pool level; and the monitor as NTS client of the real listeners (child process) using every cookie it is handed",
+         "All loss patterns up to length 7 (quick) / 10 (thorough), drains to an empty pool with re-keying, long random patterns; every request's cookie tag, field types, placeholder count and length checked; server replies checked for size, authentication, cookie count, freshness and later acceptance.",
+         "124-byte cookies (the project's size); a lost exchange is a withheld response; cookie validity under server keys observed by spending the cookies, not by opening them", "3/C11"),
 }
 
 NOT_APPLICABLE = {
